@@ -19,8 +19,9 @@ func atoi64(s string, def int64) int64 {
 }
 
 var commands = map[string]func(args map[string]string){
-	"buffer":  cmdBuffer,
-	"channel": cmdChannel,
+	"buffer":   cmdBuffer,
+	"channel":  cmdChannel,
+	"notifier": cmdNotifier,
 }
 
 // usage: harness <driver> -k v -k v ...
